@@ -244,7 +244,11 @@ func c09Render(x ast.Expr) string {
 	case *ast.BasicLit:
 		return v.Value
 	case *ast.CallExpr:
-		return c09Render(v.Fun) + "()"
+		args := []string{}
+		for _, a := range v.Args {
+			args = append(args, c09Render(a))
+		}
+		return c09Render(v.Fun) + "(" + strings.Join(args, ",") + ")"
 	case *ast.BinaryExpr:
 		return c09Render(v.X) + v.Op.String() + c09Render(v.Y)
 	case *ast.ParenExpr:
@@ -367,6 +371,48 @@ func c09Ext3Facts(e *ext) {
 		}
 	}
 	c09StrList(e, "nodePrepareOrder", order)
+	// 3b. zone withdrawal (repaired by 437c681): the early return of prepareForNodeResourceTopology looks at Resets, and the
+	//     reset branch (`if !ok`) of UpdateNRTZoneListIfNeeded writes the zeroed entry back into zone.Resources
+	checks := false
+	if fd := e.funcDecl("pkg/slo-controller/noderesource/plugins/batchresource", "Plugin", "prepareForNodeResourceTopology"); fd == nil {
+		e.fail("prepareForNodeResourceTopology not found")
+	} else {
+		for _, st := range fd.Body.List {
+			if is, ok := st.(*ast.IfStmt); ok {
+				c := c09Render(is.Cond)
+				checks = strings.Contains(c, "ZoneResources") && strings.Contains(c, "Resets")
+				break
+			}
+		}
+	}
+	fmt.Fprintf(&e.out, "def nrtEarlyReturnChecksResets : Bool := %v\n", checks)
+	back := false
+	if fd := e.funcDecl("pkg/slo-controller/noderesource/plugins/util", "", "UpdateNRTZoneListIfNeeded"); fd == nil {
+		e.fail("UpdateNRTZoneListIfNeeded not found")
+	} else {
+		ast.Inspect(fd.Body, func(x ast.Node) bool {
+			is, ok := x.(*ast.IfStmt)
+			if !ok {
+				return true
+			}
+			u, ok := is.Cond.(*ast.UnaryExpr)
+			if !ok || u.Op != token.NOT || c09Render(u.X) != "ok" {
+				return true
+			}
+			ast.Inspect(is.Body, func(y ast.Node) bool {
+				if as, ok := y.(*ast.AssignStmt); ok {
+					for _, l := range as.Lhs {
+						if strings.HasPrefix(c09Render(l), "zone.Resources[") || strings.HasPrefix(c09Render(l), "zoneList[") {
+							back = true
+						}
+					}
+				}
+				return true
+			})
+			return false
+		})
+	}
+	fmt.Fprintf(&e.out, "def zoneResetWritesBack : Bool := %v\n", back)
 	// 4. the epsilon of IsCPUNormalizationRatioDifferent and its two strict comparisons
 	eps := "?"
 	if x, ok := e.valueSpec("apis/extension", "NormalizationRatioDiffEpsilon"); ok {
